@@ -26,7 +26,7 @@ type LoopInfo struct {
 
 func NewFV(eng *Engine, fn *ssa.Function, spec *FuncSpec) *FV {
 	fv := &FV{eng: eng, fn: fn, spec: spec, decls: NewDecls(), usedSpecFns: map[string]bool{},
-		strConsts: map[string]string{}, unmodelled: map[string]bool{}, inlined: map[string]bool{},
+		strConsts: map[string]string{}, unmodelled: map[string]bool{}, inlined: map[string]bool{}, uncontracted: map[string]bool{},
 		calleesByContract: map[string]bool{}, assumptions: map[string]bool{}, implUsed: map[string]types.Type{},
 		sliceElems: map[string]string{}, hsUses: map[string][]heapUse{}, hsBusy: map[string]bool{}, hsUnfolded: map[*State]map[string]bool{}}
 	fv.short = funcKey(fn)
@@ -665,6 +665,9 @@ func (fv *FV) Verify() {
 	}
 	fv.entryScript = st.script
 	if fv.spec != nil {
+		fv.readonlyCheck(st)
+	}
+	if fv.spec != nil {
 		// after the vacuity guard's snapshot: a failed table obligation makes the rest of the path moot,
 		// which must not be mistaken for contradictory entry assumptions
 		for _, ct := range fv.spec.Tables {
@@ -947,4 +950,71 @@ func (fv *FV) constTable(st *State, ct ConstTable) {
 	}
 	st.assume(Term{S: fmt.Sprintf("(forall ((%s %s)) (=> (select (select %s %s) %s) (or %s)))", q, ks, dh.S, gt.S, q, strings.Join(alts, " ")), Sort: SBool})
 	fv.assume("consttable " + ct.Var + ": the table's entries are read from the source by constant evaluation (go/types), not derived by symbolic execution of the package initialiser")
+}
+
+// readonlyCheck: `readonly NAME` - the function never writes through its map / slice parameter NAME
+// (no element store, no delete, and the value is not stored anywhere a later write could reach it from:
+// it may only be read, ranged over, indexed and passed on to callees, whose own contracts speak for
+// them). Decided on the SSA of the function (and of its closures); one obligation per parameter.
+func (fv *FV) readonlyCheck(st *State) {
+	for _, name := range fv.spec.Readonly {
+		var par *ssa.Parameter
+		for _, p := range fv.fn.Params {
+			if p.Name() == name {
+				par = p
+			}
+		}
+		ok := par != nil
+		why := "parameter not found"
+		if par != nil {
+			why = ""
+			// values that denote the parameter: the parameter itself and loads from the local cell it is
+			// spilled to in naive SSA form
+			cells := map[ssa.Value]bool{}
+			for _, b := range fv.fn.Blocks {
+				for _, in := range b.Instrs {
+					if s, isS := in.(*ssa.Store); isS && s.Val == par {
+						cells[s.Addr] = true
+					}
+				}
+			}
+			isPar := func(v ssa.Value) bool {
+				if v == par {
+					return true
+				}
+				if u, isU := v.(*ssa.UnOp); isU && u.Op == token.MUL && cells[u.X] {
+					return true
+				}
+				return false
+			}
+			for _, b := range fv.fn.Blocks {
+				for _, in := range b.Instrs {
+					switch x := in.(type) {
+					case *ssa.MapUpdate:
+						if isPar(x.Map) {
+							ok, why = false, "element assignment at "+fv.eng.pos(x.Pos())
+						}
+					case *ssa.IndexAddr:
+						if isPar(x.X) {
+							// an element address: only allowed as the operand of a load
+							for _, r := range *x.Referrers() {
+								if st2, isSt := r.(*ssa.Store); isSt && st2.Addr == x {
+									ok, why = false, "element store at "+fv.eng.pos(st2.Pos())
+								}
+							}
+						}
+					case *ssa.Call:
+						if bi, isB := x.Call.Value.(*ssa.Builtin); isB && (bi.Name() == "delete" || bi.Name() == "clear") && len(x.Call.Args) > 0 && isPar(x.Call.Args[0]) {
+							ok, why = false, bi.Name()+" at "+fv.eng.pos(x.Pos())
+						}
+					}
+				}
+			}
+		}
+		goal := tTrue
+		if !ok {
+			goal = tFalse
+		}
+		fv.oblige(st, "owned", "readonly:"+name, fv.fn.Pos(), goal, "the function never writes through its parameter "+name+" ("+why+")")
+	}
 }
